@@ -115,6 +115,7 @@ inline void arm_watchdog() {
 	memset(&sa, 0, sizeof sa);
 	sa.sa_handler = on_alarm;
 	sigaction(SIGALRM, &sa, nullptr);
+	sigaction(SIGPROF, &sa, nullptr); // vf::watch_start: CPU-time limit
 }
 
 // Finding key for a dead child.  Memory errors / UB: error class + innermost nifly frame.
